@@ -189,6 +189,8 @@ def unusual_context_oracle(ck, report):
         "deep-tree-replaced": ([{"processor": "FloatValueDataSource", "parameters": {"value": 2.0}}, {"processor": C.VerifDeepTreeContextProcessor},
                                 {"processor": "FloatMultiplyOperation", "parameters": {"factor": 3.0}}], {"tree": C._nested(5000, 1)}),
         "deep-tree-created": ([{"processor": "FloatValueDataSource", "parameters": {"value": 2.0}}, {"processor": C.VerifDeepTreeContextProcessor}], {}),
+        "data-len-raises": ([{"processor": C.make_odd_source("raises")}], {}),
+        "data-len-overflows": ([{"processor": C.make_odd_source("huge")}], {}),
         "repr-raises": ([{"processor": "FloatValueDataSource", "parameters": {"value": 2.0}}, {"processor": C.VerifUnhashableReprContextProcessor},
                          {"processor": "FloatMultiplyOperation", "parameters": {"factor": 3.0}}], {}),
     }
